@@ -19,10 +19,13 @@ REC = os.path.join(BIN, 'rec')
 # positions: name -> needs (restrictions on the word)
 POSITIONS = ['cmd_arg', 'cmd_env', 'str_env', 'step_arg', 'step_env', 'test_arg',
              'test_env', 'drv_arg', 'copt_list', 'copt_str', 'lopt_list',
-             'lopt_str', 'define', 'gopt', 'glopt', 'cmd_word', 'file_arg',
+             'lopt_str', 'define', 'gopt', 'glopt', 'tool_word', 'cmd_word',
+             'file_arg',
              'incdir']
 PATHLIKE = ('cmd_word', 'file_arg', 'incdir')
 GLOBAL = ('gopt', 'glopt')
+# an argument inside the compiler command taken from $CC (one project each)
+SINGLE = ('tool_word',)
 
 
 def word_ok(pos, w):
@@ -178,6 +181,11 @@ def write_project(root, slots, backend):
             L.append("executable(%r, [%r], link_options=%s)" % (
                 'p' + i, 's%s.c' % i, o))
             targets.append('p' + i)
+        elif s.pos == 'tool_word':
+            open(os.path.join(src, 's%s.c' % i), 'w').close()
+            L.append("object_file(file=%r, options=['-DVB=%s', '-DVE=%s'])" % (
+                's%s.c' % i, i, i))
+            targets.append('s%s.o' % i)
         elif s.pos == 'gopt':
             L.append("global_options(%r, lang='c')" % (
                 ['-DGB=' + i, w, '-DGE=' + i],))
@@ -255,6 +263,9 @@ def run_project(slots, backend, ninja=None):
                         'CXX': os.path.join(BIN, 'stubcxx'),
                         'AR': os.path.join(BIN, 'stubar'),
                         'VERIF_LOG': log})
+        for s in slots:
+            if s.pos == 'tool_word':
+                env['CC'] = env['CC'] + ' ' + sh_user_quote(s.word)
         if ninja:
             env['NINJA'] = ninja
         rc, out = bfg_configure(src, bld, env=env, backend=backend)
@@ -379,6 +390,15 @@ def run_project(slots, backend, ninja=None):
                         ev['delivered'] = ([syms(x) for x in b]
                                            if b is not None else
                                            [syms('<<markers lost>>')])
+            elif s.pos == 'tool_word':
+                rs = [r for r in compiles if ('-DVB=' + i) in r['argv']]
+                if rs:
+                    ev['started'] = True
+                    a = rs[0]['argv']
+                    # everything between the program and bfg9000's own first
+                    # argument (-x) is what $CC added
+                    ev['delivered'] = [syms(x) for x in
+                                       a[1:a.index('-x') if '-x' in a else 2]]
             elif s.pos in GLOBAL:
                 pool = links if s.pos == 'glopt' else compiles
                 rs = [r for r in pool if ('-DGB=' + i) in r['argv']]
@@ -418,7 +438,7 @@ def run_bisect(slots, backend, ninja=None):
 
 def run_all(slots, backend, ninja=None, per_project=250, seed=1):
     rnd = random.Random(seed)
-    normal = [s for s in slots if s.pos not in GLOBAL]
+    normal = [s for s in slots if s.pos not in GLOBAL + SINGLE]
     glob = [s for s in slots if s.pos in GLOBAL]
     rnd.shuffle(normal)
     groups = [normal[i:i + per_project]
@@ -430,6 +450,7 @@ def run_all(slots, backend, ninja=None, per_project=250, seed=1):
         gg.setdefault(s.pos, []).append(s)
     for pos, lst in gg.items():
         groups += [lst[i:i + 6] for i in range(0, len(lst), 6)]
+    groups += [[s] for s in slots if s.pos in SINGLE]
     results = pmap(lambda g: run_bisect(g, backend, ninja), groups)
     events = {}
     for g, r in zip(groups, results):
